@@ -249,7 +249,7 @@ CHECKS["C18"] = dict(
     design_ref="DESIGN.md §4 C18",
     note="Environment models (part of the claim): <S>::FromJson(json) returns the typed value built from a symbolic "
          "argument area, <S>::DecodeJson() dumps the typed value and returns json null - JSON itself is never executed. "
-         "Outside the claim: bindings without a bus; 'as'-renamed bindings; payloads above 8 bytes; frame.data beyond dlc. "
+         "Outside the claim: bindings without a bus; payloads above 8 bytes; frame.data beyond dlc. "
          "The open finding KF-DYN-ENCODE-BYTE-ALIGNED (C13) is excluded by its exact effect in the second part. "
          "Counterexamples are replayed through fcp::can::Can with real nlohmann::json, compiled with clang++ and g++. "
          "One witness per schema of the second part also runs natively at -O0 under AddressSanitizer/UBSan (concrete run, "
